@@ -243,6 +243,8 @@ with open(casesf) as cf:
         ncase += 1
         for path, fn in table(c):
             kwd = {mk(n, k): 101 + j for j, (n, k) in enumerate(kws)}
+            if careful:
+                out.write(json.dumps({"at": idx, "atpath": path}) + "\n"); out.flush()
             try:
                 if path == "literal":
                     if not all_lit:
